@@ -38,13 +38,16 @@ func (c *SubscriptionManager) AddSubscription(remoteDevice api.DeviceRemoteInter
 	if serverFeature == nil {
 		return fmt.Errorf("server feature '%s' in local device '%s' not found", data.ServerAddress, *c.localDevice.Address())
 	}
+	if data.ServerFeatureType == nil {
+		return errors.New("serverFeatureType is missing but required")
+	}
 	if err := c.checkRoleAndType(serverFeature, model.RoleTypeServer, *data.ServerFeatureType); err != nil {
 		return err
 	}
 
 	clientFeature := remoteDevice.FeatureByAddress(data.ClientAddress)
 	if clientFeature == nil {
-		return fmt.Errorf("client feature '%s' in remote device '%s' not found", data.ClientAddress, *remoteDevice.Address())
+		return fmt.Errorf("client feature '%s' in remote device '%s' not found", data.ClientAddress, remoteDevice.Ski())
 	}
 	if err := c.checkRoleAndType(clientFeature, model.RoleTypeClient, *data.ServerFeatureType); err != nil {
 		return err
@@ -92,6 +95,10 @@ func (c *SubscriptionManager) RemoveSubscription(data model.SubscriptionManageme
 	// b. The absence of "subscriptionDelete. serverAddress. device" SHALL be treated as if it was
 	//    present and set to the recipient's "device" address part.
 
+	if data.ClientAddress == nil {
+		return errors.New("clientAddress is missing but required")
+	}
+
 	var clientAddress model.FeatureAddressType
 	util.DeepCopy(data.ClientAddress, &clientAddress)
 	if data.ClientAddress.Device == nil {
@@ -100,7 +107,7 @@ func (c *SubscriptionManager) RemoveSubscription(data model.SubscriptionManageme
 
 	clientFeature := remoteDevice.FeatureByAddress(data.ClientAddress)
 	if clientFeature == nil {
-		return fmt.Errorf("client feature '%s' in remote device '%s' not found", data.ClientAddress, *remoteDevice.Address())
+		return fmt.Errorf("client feature '%s' in remote device '%s' not found", data.ClientAddress, remoteDevice.Ski())
 	}
 
 	serverFeature := c.localDevice.FeatureByAddress(data.ServerAddress)
